@@ -192,7 +192,7 @@ def run_case(case):
         # solver.result mirrors the returned list
         try:
             r = solver.result
-            if len(r) != len(entries) or any(r["circuit"][j] is not entries[j][0] for j in range(len(entries))):
+            if len(r) != len(entries) or sorted(id(c) for c in r["circuit"]) != sorted(id(e[0]) for e in entries):
                 ctx.violate("A_result_attr_mismatch", -1, "solver.result does not list the circuits of the returned entries", sig)
         except core.HarnessError:
             raise
